@@ -5,10 +5,14 @@ package sim
 import (
 	"fmt"
 	"math"
+	"os"
+	"path/filepath"
+	"regexp"
 	"strings"
 	"testing"
 
 	"pgregory.net/rapid"
+	"sim/sched"
 )
 
 func init() {
@@ -162,4 +166,131 @@ func sameLog(a, b string) bool {
 		}
 	}
 	return true
+}
+
+// ---- c11cli: the threaded commands, run in-process through cobra inside the scheduler ---------------------
+
+type CliCase struct {
+	Cmd     string    `json:"cmd"` // compare, compare-weighted, fbp, tbe, tbe-taxa
+	Ref     string    `json:"ref"`
+	Recs    []Rec     `json:"recs"`
+	Threads int       `json:"threads"`
+	Tips    bool      `json:"tips,omitempty"`
+	Binary  bool      `json:"binary,omitempty"`
+	Sched   SchedCase `json:"sched"`
+}
+
+func init() {
+	Register(&Engine{
+		Name: "c11cli", Prop: "C11",
+		Rule: "case = (command ∈ {compare trees, compare trees --weighted, compute support fbp, compute support tbe [--moved-taxa --per-branches]}, reference tree file, " +
+			"file of 1..8 trees with an optional faulty tree (malformed / foreign, missing, extra taxon / duplicate tip) at a drawn position, -t ∈ {2,3,4,8}, schedule); " +
+			"the command runs in-process through cmd.RootCmd inside the scheduler with -t 1 sequentially and with -t N under the drawn schedule. Oracles: both runs " +
+			"terminate (no deadlock, panic, exit, step-budget overrun); with a faulty tree both return an error; without, outputs are equal (per-tree lines sorted). " +
+			"Non-trivial: ≥ 2 workers received work and ≥ 1 context switch; distinct = distinct scheduler trace hashes",
+		Gen: func(rt *rapid.T, tier string) any {
+			pc := genPipe(rt, tier, pipeGenOpts{algos: []string{"compare"}, faults: true, faultKinds: []string{"foreign", "missing", "extra", "duptip", "malformed"},
+				minTax: 4, maxTax: 9, maxTrees: 8, rootedRef: true})
+			return &CliCase{Cmd: rapid.SampledFrom([]string{"compare", "compare-weighted", "fbp", "tbe", "tbe-taxa"}).Draw(rt, "cmd"), Ref: pc.Ref, Recs: pc.Recs,
+				Threads: rapid.SampledFrom([]int{2, 3, 4, 8}).Draw(rt, "threads"), Tips: pc.Tips, Binary: rapid.IntRange(0, 3).Draw(rt, "binary") == 0, Sched: pc.Sched}
+		},
+		New:       func() any { return &CliCase{} },
+		Exec:      execC11Cli,
+		Real:      []string{"cmd compare trees / compute support fbp / tbe through cobra", "readTrees + reader goroutine", "tree.Compare / CompareWeighted", "support.FBP / TBE"},
+		Simulated: []string{"choice of the runnable goroutine at every channel/WaitGroup/lock/shared-variable point", "position and kind of the faulty tree in the input file"},
+		Expected:  []string{"fault-free", "faulty-tree", "two-or-more-workers-had-work"},
+	})
+}
+
+func execC11Cli(t *testing.T, cc any, o *Outcome) {
+	c := cc.(*CliCase)
+	dir, err := os.MkdirTemp("", "verifc11cli")
+	if err != nil {
+		panic("harness: " + err.Error())
+	}
+	defer os.RemoveAll(dir)
+	pc := &PipeCase{Recs: c.Recs}
+	fpos, fkind := pc.hasFault()
+	files := map[string]string{"ref.nw": c.Ref + "\n", "trees.nw": pc.streamText()}
+	for n, s := range files {
+		os.WriteFile(filepath.Join(dir, n), []byte(s), 0644)
+	}
+	tpl := &detTemplate{name: c.Cmd, threaded: true}
+	switch c.Cmd {
+	case "compare", "compare-weighted":
+		tpl.args = []string{"compare", "trees", "-i", "@ref.nw", "-c", "@trees.nw", "-t", "@T", "--seed", "1"}
+		tpl.stdout, tpl.perTree = true, true
+		if c.Cmd == "compare-weighted" {
+			tpl.args = append(tpl.args, "--weighted")
+		}
+		if c.Tips {
+			tpl.args = append(tpl.args, "-l")
+		}
+		if c.Binary {
+			tpl.args = append(tpl.args, "--binary")
+		}
+	case "fbp":
+		tpl.args = []string{"compute", "support", "fbp", "-i", "@ref.nw", "-b", "@trees.nw", "-t", "@T", "-l", "@X1", "--silent", "--seed", "1", "-o", "@OUT"}
+	case "tbe":
+		tpl.args = []string{"compute", "support", "tbe", "-i", "@ref.nw", "-b", "@trees.nw", "-t", "@T", "-l", "@X1", "--silent", "--seed", "1", "-o", "@OUT"}
+	case "tbe-taxa":
+		tpl.args = []string{"compute", "support", "tbe", "-i", "@ref.nw", "-b", "@trees.nw", "-t", "@T", "-l", "@X1", "-r", "@X2", "--moved-taxa", "--per-branches", "--silent", "--seed", "1", "-o", "@OUT"}
+	}
+	run := func(threads int, sc SchedCase, tag string) (detResult, sched.Result) {
+		dc := &DetCase{Seed: 1, Threads: threads}
+		var res sched.Result
+		r := runInProcessRes(t, dir, tpl, dc, Seam{MapSeed: 1, Epoch: 1000, Sched: sc}, tag, &res)
+		return r, res
+	}
+	base, bres := run(1, seqSched(), "seq")
+	got, gres := run(c.Threads, c.Sched, "par")
+	o.Steps = int64(bres.Steps + gres.Steps)
+	o.Key = fmt.Sprintf("%s/%d/%016x", c.Cmd, c.Threads, gres.Hash)
+	o.Nontrivial = gres.Switches > 0 && gres.Busy >= 2
+	if gres.Busy >= 2 {
+		o.Probe("two-or-more-workers-had-work")
+	}
+	ctx := fmt.Sprintf("gotree %s\n  ref   %s\n  trees %s", strings.Join(tpl.args, " "), c.Ref, recTexts(c.Recs))
+	for name, r := range map[string]sched.Result{"-t 1": bres, fmt.Sprintf("-t %d", c.Threads): gres} {
+		what := c.Cmd + " " + name
+		for _, p := range r.Panics {
+			o.Fail("cli:panic:"+normPanic(p.Value, p.Stack), "%s: panic in goroutine %s: %s\n%s\n%s", what, p.G, p.Value, trimStack(p.Stack), ctx)
+		}
+		if r.Exit != nil {
+			o.Fail("cli:process-exit:"+c.Cmd, "%s: os.Exit(%d) from library code\n%s", what, r.Exit.Code, ctx)
+		}
+		if r.Deadlock && len(r.Panics) == 0 {
+			o.Fail("cli:deadlock:"+c.Cmd+":"+blockedSites(r.Blocked), "%s: no goroutine can run and the command has not returned; blocked: %v\n%s", what, r.Blocked, ctx)
+		}
+		if r.Budget {
+			o.Fail("cli:step-budget:"+c.Cmd, "%s: more than %d scheduler decisions\n%s", what, r.Steps, ctx)
+		}
+	}
+	if len(o.Viols) > 0 {
+		return
+	}
+	if fkind != "" {
+		o.Fault(fkind)
+		o.Probe("faulty-tree")
+		for name, r := range map[string]detResult{"-t 1": base, fmt.Sprintf("-t %d", c.Threads): got} {
+			if !strings.HasPrefix(r.status, "error") {
+				o.Fail("cli:error-lost:"+c.Cmd+":"+fkind, "%s %s: tree %d of %d is %s but the command reports %q\n%s", c.Cmd, name, fpos, len(c.Recs), fkind, r.status, ctx)
+			}
+		}
+		return
+	}
+	o.Probe("fault-free")
+	// the support log prints the thread count; its moved-taxa numbers are sums accumulated in schedule order (printed with 6 decimals)
+	cpus := regexp.MustCompile(`(?m)^CPUs( *): .*$`)
+	for _, r := range []detResult{base, got} {
+		if x, ok := r.outs["X1"]; ok {
+			r.outs["X1"] = cpus.ReplaceAllString(x, "CPUs$1: <n>")
+		}
+	}
+	if a, b := base.outs["X1"], got.outs["X1"]; a != b && sameLog(a, b) {
+		got.outs["X1"] = a
+	}
+	if d := diffResults(base, got, false); d != "" {
+		o.Fail("cli:schedule-dependent:"+c.Cmd, "-t %d gives another result than -t 1\n%s\n%s", c.Threads, ctx, d)
+	}
 }
